@@ -8,6 +8,8 @@ object's current element list, so plans stay meaningful when the shrinker delete
 """
 import copy
 import random
+import signal
+import time
 from fractions import Fraction
 
 from . import model as M
@@ -15,6 +17,16 @@ from .core import HarnessError, import_library
 from .core import Violation as core_Violation
 
 NSLOTS = 3
+STEP_TIME_LIMIT_S = 30
+
+
+class _StepTimeout(BaseException):
+    pass
+
+
+def _raise_step_timeout(signum, frame):
+    raise _StepTimeout()
+
 BAD = {"str": "abc", "none": None, "list": [0, 1], "dict": {1: 1}, "cplx": 1j}
 
 
@@ -612,7 +624,31 @@ class KVEngine:
             ctx.count("op:" + kind)
             before = [None if kv is None else self.snapshot(kv) for kv in pool]
             handler = getattr(self, "op_" + kind)
-            outcome = handler(op, ctx, cfg, J03, J18)
+            # every KnotVector operation on these small vectors takes micro- to milliseconds; one that has not returned
+            # after STEP_TIME_LIMIT_S seconds (e.g. a binary search without a terminating interval) is reported as
+            # a violation of "queries agree with the element list" rather than left to hang the batch
+            old_handler = signal.signal(signal.SIGALRM, _raise_step_timeout)
+            old_timer = signal.setitimer(signal.ITIMER_REAL, STEP_TIME_LIMIT_S)
+            t_start = time.time()
+            try:
+                outcome = handler(op, ctx, cfg, J03, J18)
+                # pool-wide query checks of this step run under the same limit (see below)
+                self._post_step(ctx, pool, before, outcome, kind, step, J03)
+            except _StepTimeout:
+                signal.setitimer(signal.ITIMER_REAL, 0)
+                if J03:
+                    ctx.fail("does-not-return", kind, "step %d (%s) did not return within %d s on a vector of at most a few dozen knots"
+                             % (step, kind, STEP_TIME_LIMIT_S))
+                ctx.count("step_timeout_unjudged")
+                return
+            finally:
+                signal.setitimer(signal.ITIMER_REAL, 0)
+                signal.signal(signal.SIGALRM, old_handler)
+                if old_timer[0] > 0:
+                    signal.setitimer(signal.ITIMER_REAL, max(1.0, old_timer[0] - (time.time() - t_start)))
+
+    def _post_step(self, ctx, pool, before, outcome, kind, step, J03):
+        if True:
             # pool-wide invariants
             for s, kv in enumerate(pool):
                 if kv is None:
